@@ -1,6 +1,7 @@
 (* C13 — Threads sharing a connection never cross, duplicate or lose replies.
-(* SCOPE. The transition system has client threads that issue one request each and wait WITHOUT expiring (timeouts only end a poll or a
-   condition wait; expiry and late replies are C15's), background serving threads, and a peer that answers with by-value replies in any
+(* SCOPE. The transition system has client threads that issue one request each and wait for it - with or without an expiry (LExpire: the
+   clock passes a request's expiry; a reply dispatched afterwards is dropped and the waiter gives up: theorems c13_late_* below; the
+   timing of expiries is C15's) -, timeouts that end a poll or a condition wait, background serving threads, and a peer that answers with by-value replies in any
    order; dispatching a reply is one step. Incoming requests of the peer and exception replies are exercised by the harness only.
    Liveness: [c13_no_deadlock] is progress (some thread can step while a reply is in the stream); that every request completes is
    refuted for deadline-free waits (last theorem) and not proved otherwise. *)
